@@ -119,6 +119,7 @@ class DynamicSchedulePass( BasePass ):
                             "\n - ".join( [
                               f"{y.__name__} ({'@update_once' if y in onces else '@update'} " \
                               f"in 'top.{repr(top.get_update_block_host_component(y))[2:]}')"
+                              if y in top.get_all_update_blocks() else f"{y.__name__} (generated net block)"
                               for y in scc] ))
 
         tmp_schedule = []
